@@ -47,3 +47,30 @@ package absnfs
 //@ concl [last] fragLast(a, p)
 //@ concl [len] fragLen(a, p) == n
 //@ concl [accepted] fragLen(a, p) <= maxRec && be32(a, p) <= 4294967295
+
+
+//@ func NewRecordMarkingReader
+//@ prop C28 C15
+//@ ensures [init] result != nil && fresh(result) && result.r == r && result.fragmentBuf != nil && result.MaxRecordSize == 1048576
+
+//@ func NewRecordMarkingWriter
+//@ prop C28 C15
+//@ ensures [init] result != nil && fresh(result) && result.w == w && result.maxFragment == 1048576
+
+//@ func NewRecordMarkingConn
+//@ prop C28 C15
+//@ ensures [wired] result != nil && fresh(result) && result.reader != nil && result.reader.fragmentBuf != nil && result.reader.r == r && result.reader.MaxRecordSize == 1048576 && result.writer != nil && result.writer.w == w && result.writer.maxFragment == 1048576 && fresh(result.reader) && fresh(result.writer)
+
+//@ func RecordMarkingConn.ReadRecord
+//@ prop C28 C15
+//@ requires c != nil && c.reader != nil && c.reader.fragmentBuf != nil && c.reader.MaxRecordSize <= 1073741824
+//@ modifies rpos, wlen, wdata, elems(byte), RecordMarkingReader.lastFragment, RecordMarkingReader.complete
+//@ ensures [bounded] isnil(result1) ==> len(result0) <= rmMax(c.reader) && fresh(result0)
+//@ ensures [single-fragment-exact] isnil(result1) && fragLast(rdata[valof(c.reader.r)], old(rpos[valof(c.reader.r)])) ==> len(result0) == fragLen(rdata[valof(c.reader.r)], old(rpos[valof(c.reader.r)])) && forall(k, 0, len(result0), result0[k] == rdata[valof(c.reader.r)][old(rpos[valof(c.reader.r)]) + 4 + k], result0[k])
+
+//@ func RecordMarkingConn.WriteRecord
+//@ prop C28 C14
+//@ requires c != nil && c.writer != nil && c.writer.maxFragment > 0 && c.writer.maxFragment <= 2147483647
+//@ modifies wlen, wdata, locks
+//@ ensures [single-frame] isnil(result) && len(data) <= c.writer.maxFragment ==> wlen[valof(c.writer.w)] == old(wlen[valof(c.writer.w)]) + 4 + len(data) && be32(wdata[valof(c.writer.w)], old(wlen[valof(c.writer.w)])) == 2147483648 + len(data) && forall(k, 0, len(data), wdata[valof(c.writer.w)][old(wlen[valof(c.writer.w)]) + 4 + k] == data[k], data[k])
+//@ ensures [frame] appendFrame(valof(c.writer.w), old(wlen[valof(c.writer.w)]))
